@@ -58,6 +58,11 @@ def instantiations(tier, seed):
         out.append({"A": A, "boxes": [[0, 1]] * 4, "part": "reduce", "warm": False})
     out.append({"A": [[1, 0, 0, 0], [0, 1, 1, 0], [-1, 0, 0, 1]], "boxes": [[-2, 2], [0, 1], [0, 1], "sym"], "part": "reduce", "warm": True})
     out.append({"A": [[0, 2, 1, 0], [1, 0, 0, 0], [-1, 0, 0, 1], [0, 0, -1, 1]], "boxes": [[0, 1]] * 4, "part": "reduce", "warm": False})
+    # the reduction queries asked once before the operation under test, on the same polyhedron object
+    for k, (A, bx) in enumerate([([[1, 0], [-1, -1]], [[0, 5], [0, 1]]), ([[1, 1, 1]], [[0, 1]] * 3), ([[2, 3], [-3, 1]], ["sym", [0, 1]]),
+                                 ([[1, -2, 3], [2, 0, -1]], [[0, 1], [-2, 3], [0, 1]]), ([[-1, -1], [1, 1]], [[-2, 2], "sym"])]):
+        for part in ("rows", "reduce") if tier == "thorough" else (["rows", "reduce"][k % 2],):
+            out.append({"A": A, "boxes": bx, "part": part, "warm": "queries"})
     for mu in ("forced_off", "lost_solution"):
         out.append({"kind": "mutant", "mutant": mu, "A": [[-2, 1, 1], [1, 1, 0]], "boxes": [[0, 1], [0, 1], "sym"], "part": "reduce"})
     return out
@@ -86,6 +91,12 @@ def run_inst(spec, run):
             try:
                 if spec.get("warm"):
                     nd_warm(P)
+                if spec.get("warm") == "queries":
+                    # every reduction query once before the operation under test, on the same object (results discarded)
+                    P.tighten_column_bounds()
+                    P.reducable_columns_approx()
+                    P.reducable_rows()
+                    P.column_bounds()
                 if spec["part"] == "rows":
                     out["rr"] = P.reducable_rows()
                 elif spec["part"] == "cols":
